@@ -152,8 +152,8 @@ extern MPT_STRUCT(command) *mpt_command_reserve(MPT_STRUCT(array) *arr, size_t m
 	else {
 		++mid;
 	}
-	/* add command slot */
-	if (!(cmd = mpt_array_append(arr, sizeof(*cmd), 0))) {
+	/* add command slot (command buffers with content traits take no raw append) */
+	if (!(cmd = mpt_array_insert(arr, msg->_used, sizeof(*cmd)))) {
 		return 0;
 	}
 	
